@@ -266,7 +266,7 @@ def c_isolate(h):
     h.frame_ok(out, "C13.frame")
 
 
-@contract("PolyhedralTerm.accessors", ["C04"], [PT + "get_coefficient", PT + "contains_var", PT + "vars", PT + "get_polarity", PT + "get_sign"], "S", bound=BOUND)
+@contract("PolyhedralTerm.accessors", ["C04", "C14"], [PT + "get_coefficient", PT + "contains_var", PT + "vars", PT + "get_polarity", PT + "get_sign"], "S", bound=BOUND)
 def c_accessors(h):
     s = S(h)
     a = s.term("a", V3)
@@ -286,14 +286,15 @@ def c_accessors(h):
         names = [v.attrs["_name"] for v in vs.items]
         h.check("vars.duplicate_free", len(names) == len(set(names)), "%s" % names)
         h.check("vars.exactly_nonzero_coefficients", set(names) == set(s.coefs(a)), "%s" % names)
-    if present:
-        o3 = h.call(h.method(a, "get_sign"), [s.var(x)])
-        if _ret(h, o3, "get_sign.no_exception"):
-            h.ensure("get_sign.value", to_real(o3.value) == z3.If(s.coef(a, x) >= 0, z3.RealVal(1), z3.RealVal(-1)))
-        pol = h.ctx.choose(2, "pol") == 0
-        o4 = h.call(h.method(a, "get_polarity"), [s.var(x), pol])
-        if _ret(h, o4, "get_polarity.no_exception"):
-            h.ensure("get_polarity.value", _bool(o4.value) == ((s.coef(a, x) >= 0) if pol else (s.coef(a, x) <= 0)))
+    # also for a variable the term does not mention: its coefficient is zero, which has sign +1 and either polarity (the
+    # contract had required the variable to be present, as the call sites do; the methods are public and documented for zero)
+    o3 = h.call(h.method(a, "get_sign"), [s.var(x)])
+    if _ret(h, o3, "C14.get_sign.no_exception"):
+        h.ensure("get_sign.value", to_real(o3.value) == z3.If(s.coef(a, x) >= 0, z3.RealVal(1), z3.RealVal(-1)))
+    pol = h.ctx.choose(2, "pol") == 0
+    o4 = h.call(h.method(a, "get_polarity"), [s.var(x), pol])
+    if _ret(h, o4, "C14.get_polarity.no_exception"):
+        h.ensure("get_polarity.value", _bool(o4.value) == ((s.coef(a, x) >= 0) if pol else (s.coef(a, x) <= 0)))
 
 
 @contract("PolyhedralTerm.term_to_polytope", ["C03", "C07", "C13"], [PT + "term_to_polytope", PT + "polytope_to_term"], "S", bound=BOUND + "; variable orders: permutations of {x,y,z} prefixes")
